@@ -219,7 +219,8 @@ Definition drop_items (a : res out) : res out :=
 
 Definition present {A} (o : option A) : bool := match o with Some _ => true | None => false end.
 
-(* [rj]: current_root_jump of the body being emitted *)
+(* [rj]: current_root_jump of the body being emitted (what build() passes to
+   handle_parse_node; since fix 6b0d36b only a fallback there, unused here) *)
 Fixpoint inl (rj : nat) (t : tree) (cx : ctx) (s : cst) {struct t} : res out :=
   match t with
   | T ix d l r =>
@@ -279,7 +280,7 @@ Fixpoint inl (rj : nat) (t : tree) (cx : ctx) (s : cst) {struct t} : res out :=
       ret (emit s1 (I_EndSideEffect, ONone) (Some ix))))
     | KNested =>
       match r with
-      | None => ret (emit s (I_Put, OExpr rj) (Some ix))
+      | None => ret (emit s (I_Put, OExpr c) (Some ix))   (* `{}`: the expression it is written in *)
       | Some rt =>
         let jump_index := jl s in
         let s1 := new_jump s 0 in
